@@ -81,6 +81,16 @@ def checkTypeWith (mode : BaseCmp) (x : Val) (expected : Ty) : Bool :=
 
 def checkType (x : Val) (expected : Ty) : Bool := checkTypeWith elementBaseCmp x expected
 
+/-- `bounds_conform` applied at every level (`check_type` at the top, `same_base_type` below), when the source has it -/
+def boundsFit : BTy → BTy → Bool
+  | .agg k lo hi b, .agg _ lo' hi' b' => boundsConform k lo hi lo' hi' && boundsFit b b'
+  | _, _ => true
+
+/-- is an element aggregate with its own bounds stored where `e` is the declared element type?  The class and base-type
+comparison of `check_type`, plus the bounds when the source compares them (`elementBoundsChecked`, regenerated) -/
+def elementAccepted (x e : BTy) : Bool :=
+  checkType ⟨eraseBounds x, 1⟩ (eraseBounds e) && (if elementBoundsChecked then boundsFit x e else true)
+
 /-- `check_type` raises `TypeError` -/
 def typeMismatch (x : Val) (expected : Ty) : Prop := ¬ (checkType x expected = true)
 
